@@ -30,7 +30,17 @@ RULE = ("for each generated program (10-60 messages; nested, failing, typed, tas
         "that itself logs an audit message and acknowledges it, another quarter log a message in an action's context after finish() inside its own "
         "context() (such tasks are exempt from the completeness clause only). part 'exitlog': fresh interpreters that end in the ordinary way (fall off the end / sys.exit) "
         "and whose application atexit hook - registered before or after the log file was set up by to_file / add_destinations - logs a message and finishes the "
-        "action spanning the program: every logging call acknowledged during exit is in the file, the task parses as complete. non-trivial = crash inside a task with an open "
+        "action spanning the program: every logging call acknowledged during exit is in the file, the task parses as complete. "
+        "part 'filekinds': the same complete (write index, phase) enumeration with further kinds of real file objects behind the pass-through object - write-through "
+        "TextIOWrapper over a buffered binary file (also line-buffered, also over a raw FileIO, also not write-through), open(path, 'a', buffering=1), "
+        "open(path, 'ab', buffering=65536), BufferedWriter(FileIO) with buffer sizes 16 B - 1 MiB, os.fdopen(fd, 'a'), io.FileIO, and the process's own sys.stdout "
+        "redirected onto the log file (as it is / after reconfigure(write_through=True)); and, because the library may look at the object it is given, the REAL file "
+        "object handed as it is to to_file or add_destinations(FileDestination(file=...)), one child per eliot API call of the program that SIGKILLs itself right after "
+        "that call returned and one that the parent SIGKILLs at the instant that call's acknowledgement arrives (owed lines = what a counting destination had received "
+        "at that call in a run to completion): same oracle - at least the owed lines, all complete, a prefix of the reference, parser clauses. "
+        "part 'stdoutproc': fresh interpreters started with standard output redirected to the log file (with and without -u) that reconfigure sys.stdout "
+        "(write_through / line_buffering / both / nothing / log to sys.stdout.buffer), log 9 one-line calls and kill themselves after call k, for every k. "
+        "non-trivial = crash inside a task with an open "
         "nested action; distinct by (program shape, mode, crash point)")
 ASSUMPTIONS = ["process death (SIGKILL), not machine/power failure: the kernel keeps data already handed to write(2)",
                "programs are deterministic given the seed (uuids excepted), so the reference run names the expected sequence"]
@@ -45,22 +55,83 @@ def plan(tier, seed):
     m = 16 if tier == "quick" else 200
     specs += [{"part": "external", "seed": seed, "i": i, "kills": 12 if tier == "quick" else 25} for i in range(m)]
     specs += [{"part": "exitlog", "seed": seed, "i": i} for i in range(16)]
+    if ENABLE_FILEKINDS:
+        specs += [{"part": "filekinds", "seed": seed, "i": i} for i in range(len(KINDS) * (3 if tier == "quick" else 30))]
+        specs += [{"part": "stdoutproc", "seed": seed, "i": i} for i in range(7 if tier == "quick" else 14)]
     return specs
 
 
-def open_mode(path, mode):
+# part 'filekinds': further kinds of real file objects an application may hand to eliot.to_file / FileDestination
+ENABLE_FILEKINDS = True
+KINDS = ["tw_wt", "tw_wt_lb", "a_lb", "stdout_wt", "ab64k", "bw", "fdopen_a", "tw_raw_wt", "stdout", "fileio", "tw"]
+KIND_TEXT = {
+    "tw_wt": 'io.TextIOWrapper(open(path, "ab"), encoding="utf-8", write_through=True)',
+    "tw_wt_lb": 'io.TextIOWrapper(open(path, "ab"), encoding="utf-8", write_through=True, line_buffering=True)',
+    "a_lb": 'open(path, "a", buffering=1)',
+    "stdout_wt": 'sys.stdout redirected to the log file, after sys.stdout.reconfigure(write_through=True)',
+    "ab64k": 'open(path, "ab", buffering=65536)',
+    "bw": 'io.BufferedWriter(io.FileIO(path, "ab"), buffer_size=16 / 512 / 8192 / 1 MiB)',
+    "fdopen_a": 'os.fdopen(os.open(path, O_WRONLY|O_CREAT|O_APPEND), "a")',
+    "tw_raw_wt": 'io.TextIOWrapper(io.FileIO(path, "ab"), encoding="utf-8", write_through=True)',
+    "stdout": 'sys.stdout redirected to the log file',
+    "fileio": 'io.FileIO(path, "ab")',
+    "tw": 'io.TextIOWrapper(open(path, "ab"), encoding="utf-8")',
+}
+# kinds whose write() alone hands a complete line to the operating system (Python's documented behaviour of raw files and of
+# line-buffered text files): used only to tell whether the injected crash landed where it was planned
+WRITE_REACHES_OS = ("ab0", "tw_wt_lb", "a_lb", "tw_raw_wt", "fileio")
+BW_SIZES = [16, 512, 8192, 1 << 20]
+
+
+def open_mode(path, mode, variant=0):
     if mode == "ab":
         return open(path, "ab")
     if mode == "ab0":
         return open(path, "ab", buffering=0)
-    return open(path, "a", encoding="utf-8", newline="\n")
+    if mode == "a":
+        return open(path, "a", encoding="utf-8", newline="\n")
+    import io
+    import sys
+    if mode == "tw_wt":
+        return io.TextIOWrapper(open(path, "ab"), encoding="utf-8", write_through=True)
+    if mode == "tw_wt_lb":
+        return io.TextIOWrapper(open(path, "ab"), encoding="utf-8", write_through=True, line_buffering=True)
+    if mode == "tw":
+        return io.TextIOWrapper(open(path, "ab"), encoding="utf-8")
+    if mode == "tw_raw_wt":
+        return io.TextIOWrapper(io.FileIO(path, "ab"), encoding="utf-8", write_through=True)
+    if mode == "a_lb":
+        return open(path, "a", buffering=1, encoding="utf-8")
+    if mode == "ab64k":
+        return open(path, "ab", buffering=65536)
+    if mode == "bw":
+        return io.BufferedWriter(io.FileIO(path, "ab"), buffer_size=BW_SIZES[variant % len(BW_SIZES)])
+    if mode == "fileio":
+        return io.FileIO(path, "ab")
+    if mode == "fdopen_a":
+        return os.fdopen(os.open(path, os.O_WRONLY | os.O_CREAT | os.O_APPEND, 0o644), "a", encoding="utf-8")
+    if mode in ("stdout", "stdout_wt"):
+        # this process's standard output now IS the log file (what `prog >> log` arranges), then the application reconfigures it
+        fd = os.open(path, os.O_WRONLY | os.O_CREAT | os.O_APPEND, 0o644)
+        out = sys.stdout
+        if out is not None:
+            out.flush()
+        os.dup2(fd, 1)
+        os.close(fd)
+        if not isinstance(out, io.TextIOWrapper) or out.closed or out.fileno() != 1 or not isinstance(out.buffer, io.BufferedWriter):
+            # (the harness itself runs under python -u / PYTHONUNBUFFERED or without a usable stdout: the object an interpreter started
+            # without -u sets up for a redirected standard output - block-buffered text over a BufferedWriter over descriptor 1)
+            out = sys.stdout = open(1, "w", encoding="utf-8", closefd=False)
+        out.reconfigure(encoding="utf-8", line_buffering=False, write_through=(mode == "stdout_wt"))
+        return out
+    raise AssertionError(mode)
 
 
-def child_run(prog, path, mode, plan_, ackfd, repeat=1, audit=False, late=False):
+def child_run(prog, path, mode, plan_, ackfd, repeat=1, audit=False, late=False, variant=0):
     """Runs in a forked grandchild. Never returns."""
     code = 0
     try:
-        real = open_mode(path, mode)
+        real = open_mode(path, mode, variant)
         cf = crash.CrashFile(real, plan_)
         acked = [0]
 
@@ -100,12 +171,12 @@ def child_run(prog, path, mode, plan_, ackfd, repeat=1, audit=False, late=False)
         os._exit(code)
 
 
-def spawn(prog, path, mode, plan_, repeat=1, kill_after=None, audit=False, late=False):
+def spawn(prog, path, mode, plan_, repeat=1, kill_after=None, audit=False, late=False, variant=0):
     r, w = os.pipe()
     pid = os.fork()
     if pid == 0:
         os.close(r)
-        child_run(prog, path, mode, plan_, w, repeat, audit, late)
+        child_run(prog, path, mode, plan_, w, repeat, audit, late, variant)
     os.close(w)
     if kill_after is not None:
         time.sleep(kill_after)
@@ -235,9 +306,9 @@ def make_program(rng, big=False, late=False):
     return prog
 
 
-def reference_of(prog, mode, tmpdir, repeat=1, audit=False, late=False):
+def reference_of(prog, mode, tmpdir, repeat=1, audit=False, late=False, variant=0):
     path = os.path.join(tmpdir, "ref.log")
-    ack, nacks, status = spawn(prog, path, mode, None, repeat, audit=audit, late=late)
+    ack, nacks, status = spawn(prog, path, mode, None, repeat, audit=audit, late=late, variant=variant)
     with open(path, "rb") as f:
         raw = f.read()
     os.unlink(path)
@@ -357,16 +428,345 @@ def part_exitlog(spec, res):
         shutil.rmtree(d, ignore_errors=True)
 
 
+def enumerate_crashes(res, prog, mode, ref, shape, tmpdir, audit=False, late=False, variant=0, count_key="crashes_injected", set_key="phases_hit"):
+    """One child per (file write index, phase), killed there by the pass-through object. Returns True when enough was found to stop."""
+    c = res["counters"]
+    for k in range(len(ref)):
+        for ph in crash.PHASES:
+            path = os.path.join(tmpdir, "c.log")
+            ack, nacks, status = spawn(prog, path, mode, (k, ph), audit=audit, late=late, variant=variant)
+            with open(path, "rb") as f:
+                raw = f.read()
+            os.unlink(path)
+            problems = []
+            if not (os.WIFSIGNALED(status) and os.WTERMSIG(status) == signal.SIGKILL):
+                res["inconclusive"] = "crash child for point (%d, %s) ended with status %d instead of SIGKILL" % (k, ph, status)
+                continue
+            nlines, open_nested = post_mortem(raw, ack, ref, problems)
+            want_lines = k + 1 if ph == "after_flush" else k
+            if mode in WRITE_REACHES_OS and ph == "after_write":
+                want_lines = k + 1
+            if ph == "after_write" and mode not in WRITE_REACHES_OS and nlines == k + 1:
+                # a line longer than the file object's buffer is handed to the OS by write() itself
+                c["long_lines_written_through_before_flush"] = c.get("long_lines_written_through_before_flush", 0) + 1
+                want_lines = k + 1
+            if nlines != want_lines and not problems:
+                problems.append("crash at (%d, %s) in mode %s left %d complete lines, expected %d" % (k, ph, mode, nlines, want_lines))
+            if ph == "torn_write" and not raw.split(b"\n")[-1]:
+                problems.append("torn write left no trailing fragment (injector not effective)")
+            res["evals"] += 1
+            c[count_key] = c.get(count_key, 0) + 1
+            c["acknowledgements_read"] = c.get("acknowledgements_read", 0) + nacks
+            res["sets"].setdefault(set_key, []).append(ph + ":" + mode)
+            if open_nested:
+                res["nontrivial"].append(h([shape, mode, k, ph]))
+            if problems:
+                msg = problems[0]
+                if mode in KIND_TEXT:
+                    msg += " [log file: %s, behind the crash-injecting pass-through object]" % KIND_TEXT[mode]
+                res["violations"].append({"msg": msg, "mech": None,
+                                          "detail": {"crash_point": [k, ph], "mode": mode, "ack": ack, "problems": problems[:6], "program": prog}})
+                if len(res["violations"]) > 5:
+                    return True
+    return False
+
+
+# ------------------------------------------------------------------------------------------------ part 'filekinds'
+def read_all_acks(fd, on_record=None):
+    """All 4-byte acknowledgements until EOF, in order; on_record(count so far) is called as each one arrives."""
+    import struct
+    buf = b""
+    seen = 0
+    while True:
+        b = os.read(fd, 65536)
+        if not b:
+            break
+        buf += b
+        n = len(buf) // 4
+        if on_record is not None and n > seen:
+            on_record(n)
+        seen = n
+    return [struct.unpack("<I", buf[i * 4: i * 4 + 4])[0] for i in range(len(buf) // 4)]
+
+
+def child_run_real(prog, path, kind, variant, how, ackfd, expect, kill_at):
+    """Runs in a forked grandchild, never returns. The REAL file object is what the library is given. After every eliot API call that
+    returned, the number of lines the program is entitled to find in the file is acknowledged (reference run, expect is None: what a
+    counting destination registered after the file has received; other runs: the reference run's number for the same call) and, when
+    that was call number kill_at, the process kills itself."""
+    code = 0
+    try:
+        from eliot import FileDestination, add_destinations
+        real = open_mode(path, kind, variant)
+        if how == "to_file":
+            to_file(real)
+        else:
+            add_destinations(FileDestination(file=real))
+        got = [0]
+        if expect is None:
+            def counting_destination(m):
+                got[0] += 1
+            add_destinations(counting_destination)
+        it = Interp()
+        j = [0]
+
+        def after_api():
+            n = got[0] if expect is None else expect[min(j[0], len(expect) - 1)]
+            crash.send_ack(ackfd, n)
+            if j[0] == kill_at:
+                os.kill(os.getpid(), signal.SIGKILL)
+                while True:
+                    signal.pause()
+            j[0] += 1
+        it.after_api = after_api
+        it.run(prog)
+        if expect is None:
+            crash.send_ack(ackfd, got[0])  # (last record of the reference run: the total, not an API call)
+        real.flush()
+        real.close()
+    except BaseException:
+        import traceback
+        traceback.print_exc()
+        code = 3
+    finally:
+        os._exit(code)
+
+
+def spawn_real(prog, path, kind, variant, how, expect=None, kill_at=None, kill_on_ack=None):
+    """kill_on_ack=n: the parent SIGKILLs the child at the instant the n-th acknowledgement arrives on the pipe."""
+    r, w = os.pipe()
+    pid = os.fork()
+    if pid == 0:
+        os.close(r)
+        child_run_real(prog, path, kind, variant, how, w, expect, kill_at)
+    os.close(w)
+    sent = [False]
+
+    def on_record(n):
+        if kill_on_ack is not None and n >= kill_on_ack and not sent[0]:
+            sent[0] = True
+            try:
+                os.kill(pid, signal.SIGKILL)
+            except OSError:
+                pass
+    acks = read_all_acks(r, on_record)
+    os.close(r)
+    _, status = os.waitpid(pid, 0)
+    return acks, status
+
+
+def part_filekinds(spec, res, rng, tmpdir):
+    """Further kinds of real file objects. (a) behind the crash-injecting pass-through object: the complete (write index, phase)
+    enumeration; (b) the real object handed over as it is (the library may look at what it is given): one child per eliot API call
+    that kills itself right after that call returned, and one that the parent kills at the instant that call's acknowledgement arrives."""
+    c = res["counters"]
+    kind = KINDS[spec["i"] % len(KINDS)]
+    variant = spec["i"] // len(KINDS)
+    how = "to_file" if (spec["i"] // len(KINDS)) % 2 == 0 else "FileDestination"
+    prog = make_program(rng)
+    shape = gen.prog_shape(prog)
+    # ---- (a) wrapped
+    ref, err = reference_of(prog, kind, tmpdir, variant=variant)
+    if ref is None:
+        res["violations"].append({"msg": "reference run failed: %s [log file: %s]" % (err, KIND_TEXT[kind]), "mech": None, "detail": {"program": prog, "kind": kind}})
+        return
+    if enumerate_crashes(res, prog, kind, ref, shape, tmpdir, variant=variant, count_key="filekind_crashes_injected", set_key="filekind_phases_hit"):
+        return
+    # ---- (b) unwrapped
+    path = os.path.join(tmpdir, "real-ref.log")
+    expect, status = spawn_real(prog, path, kind, variant, how)
+    total = expect[-1] if expect else 0
+    expect = expect[:-1]
+    raw = b""
+    if os.path.exists(path):
+        with open(path, "rb") as f:
+            raw = f.read()
+        os.unlink(path)
+    msgs = [json.loads(l) for l in raw.split(b"\n") if l] if status == 0 else []
+    uu = {}
+    ref2 = [(uu.setdefault(m["task_uuid"], len(uu)), sig_of(m)) for m in msgs]
+    what = "%s handed to %s as it is" % (KIND_TEXT[kind], "eliot.to_file" if how == "to_file" else "add_destinations(FileDestination(file=...))")
+    if status != 0 or not expect or total != len(msgs) or ref2 != ref:
+        res["violations"].append({"msg": "a run to completion with %s ended with status %d, %d messages delivered, %d lines in the file (the same program "
+                                         "through the pass-through object: %d lines)" % (what, status, total, len(msgs), len(ref)),
+                                  "mech": None, "detail": {"program": prog, "kind": kind, "how": how}})
+        return
+    for j in range(len(expect)):
+        for style in ("selfkill", "kill_on_ack"):
+            path = os.path.join(tmpdir, "r.log")
+            if style == "selfkill":
+                acks, status = spawn_real(prog, path, kind, variant, how, expect=expect, kill_at=j)
+            else:
+                acks, status = spawn_real(prog, path, kind, variant, how, expect=expect, kill_on_ack=j + 1)
+            raw = b""
+            if os.path.exists(path):
+                with open(path, "rb") as f:
+                    raw = f.read()
+                os.unlink(path)
+            killed = os.WIFSIGNALED(status) and os.WTERMSIG(status) == signal.SIGKILL
+            if style == "selfkill" and not (killed and len(acks) == j + 1):
+                res["inconclusive"] = "self-killing child for call %d ended with status %d after %d acknowledgements" % (j, status, len(acks))
+                continue
+            if not killed and status != 0:
+                res["inconclusive"] = "child to be killed on acknowledgement %d ended with status %d" % (j + 1, status)
+                continue
+            ack = max(acks) if acks else 0
+            problems = []
+            nlines, open_nested = post_mortem(raw, ack, ref, problems)
+            res["evals"] += 1
+            if style == "selfkill":
+                c["real_file_selfkills"] = c.get("real_file_selfkills", 0) + 1
+                c["real_file_selfkills_with_lines_owed"] = c.get("real_file_selfkills_with_lines_owed", 0) + int(ack > 0)
+            else:
+                c["real_file_kills_on_acknowledgement"] = c.get("real_file_kills_on_acknowledgement", 0) + int(killed)
+            c["acknowledgements_read"] = c.get("acknowledgements_read", 0) + len(acks)
+            res["sets"].setdefault("real_file_kinds", []).append(kind + ":" + how)
+            if killed and open_nested:
+                res["nontrivial"].append(h([shape, kind, how, style, j]))
+            if problems:
+                when = ("the process killed itself (SIGKILL) right after its eliot API call number %d had returned" % (j + 1) if style == "selfkill" else
+                        "the process was killed (SIGKILL) when the acknowledgement of its eliot API call number %d arrived" % (j + 1))
+                res["violations"].append({"msg": "%s; %s: %s (acknowledged = lines of messages whose logging call had returned before the kill)" % (what, when, problems[0]), "mech": None,
+                                          "detail": {"kind": kind, "how": how, "style": style, "call": j, "owed_lines": ack, "complete_lines": nlines,
+                                                     "fragment_bytes": len(raw.split(b"\n")[-1]), "problems": problems[:6], "program": prog}})
+                if len(res["violations"]) > 5:
+                    return
+    c["real_file_programs"] = c.get("real_file_programs", 0) + 1
+    if spec["i"] < len(KINDS) and spec["i"] % 5 == 0:
+        res["sample"] = {"part": "filekinds", "file": KIND_TEXT[kind], "how": how, "program": prog, "api_calls": len(expect), "lines": len(ref)}
+
+
+STDOUT_CHILD = r"""
+import json, os, signal, sys
+sys.path.insert(0, sys.argv[1])
+spec = json.loads(sys.argv[2])
+ack_fd = os.open(sys.argv[3], os.O_WRONLY | os.O_CREAT | os.O_APPEND)
+import eliot
+if spec["reconfigure"] == "write_through":
+    sys.stdout.reconfigure(write_through=True)
+elif spec["reconfigure"] == "line_buffering":
+    sys.stdout.reconfigure(line_buffering=True)
+elif spec["reconfigure"] == "both":
+    sys.stdout.reconfigure(line_buffering=True, write_through=True)
+out = sys.stdout.buffer if spec["reconfigure"] == "buffer" else sys.stdout
+if spec["how"] == "to_file":
+    eliot.to_file(out)
+else:
+    eliot.add_destinations(eliot.FileDestination(file=out))
+calls = [0]
+
+def returned():
+    calls[0] += 1
+    os.write(ack_fd, b"%d\n" % calls[0])
+    if calls[0] == spec["kill_at"]:
+        os.kill(os.getpid(), signal.SIGKILL)
+        while True:
+            signal.pause()
+
+action = eliot.start_action(action_type="app:job", nid=0)
+returned()
+with action.context():
+    for i in range(spec["msgs"]):
+        eliot.log_message(message_type="app:step", nid=i + 1)
+        returned()
+        if i == spec["msgs"] // 2:
+            with eliot.start_action(action_type="app:inner", nid=100):
+                returned()
+                eliot.log_message(message_type="app:deep", nid=101)
+                returned()
+            returned()
+action.finish()
+returned()
+"""
+
+
+def part_stdoutproc(spec, res):
+    """A fresh interpreter started with its standard output redirected to the log file (prog >> log), which reconfigures sys.stdout
+    (write-through / line-buffered / both / not at all / python -u / logs to sys.stdout.buffer) and logs to it; every logging call emits
+    exactly one line here, and the process kills itself right after call number k returned, for every k."""
+    import subprocess
+    import sys
+    from vf.runner import REPO
+    variants = [("write_through", False), ("line_buffering", False), ("none", False), ("none", True), ("both", False), ("buffer", False), ("write_through", True)]
+    reconf, dash_u = variants[spec["i"] % len(variants)]
+    how = "to_file" if spec["i"] % 2 == 0 else "FileDestination"
+    nmsgs = 4
+    d = tempfile.mkdtemp(prefix="vf-c11-out-")
+    c = res["counters"]
+    what = "python %sprogram >> log; %s; %s" % ("-u " if dash_u else "", {"none": "sys.stdout left as it is", "buffer": "logging to sys.stdout.buffer"}.get(
+        reconf, "sys.stdout.reconfigure(%s)" % ", ".join(k + "=True" for k in (("line_buffering", "write_through") if reconf == "both" else (reconf,)))),
+        "eliot.to_file(it)" if how == "to_file" else "add_destinations(FileDestination(file=it))")
+    try:
+        script = os.path.join(d, "child.py")
+        with open(script, "w") as f:
+            f.write(STDOUT_CHILD)
+        env = {k: v for k, v in os.environ.items() if k not in ("PYTHONPATH", "PYTHONUNBUFFERED")}
+        env["PYTHONIOENCODING"] = "utf-8"
+
+        def run(kill_at):
+            log, ackp = os.path.join(d, "log"), os.path.join(d, "ack")
+            for x in (log, ackp):
+                if os.path.exists(x):
+                    os.unlink(x)
+            sp = {"reconfigure": reconf, "how": how, "msgs": nmsgs, "kill_at": kill_at}
+            with open(log, "ab") as out:
+                p = subprocess.run([sys.executable] + (["-u"] if dash_u else []) + [script, REPO, json.dumps(sp), ackp], env=env, stdout=out,
+                                   stderr=subprocess.PIPE, timeout=120, cwd=d)
+            acks = [int(x) for x in open(ackp).read().split()] if os.path.exists(ackp) else []
+            return p, (max(acks) if acks else 0), open(log, "rb").read()
+        try:
+            p, total, raw = run(0)
+            if p.returncode != 0 or not total:
+                res["inconclusive"] = "stdoutproc reference child did not finish: %s" % p.stderr.decode("utf-8", "replace")[-300:]
+                return
+            msgs = [json.loads(l) for l in raw.split(b"\n") if l]
+            ref = [(0, sig_of(m)) for m in msgs]
+            res["evals"] += 1
+            if len(msgs) != total or len(set(m["task_uuid"] for m in msgs)) != 1:
+                res["violations"].append({"msg": "%s: the program made %d logging calls (one line each, one task) and ended normally; the file holds %d lines" % (
+                    what, total, len(msgs)), "mech": None, "detail": {"part": "stdoutproc", "lines": [sig_of(m) for m in msgs][:12]}})
+                return
+            for k in range(1, total + 1):
+                p, ack, raw = run(k)
+                if p.returncode != -signal.SIGKILL or ack != k:
+                    res["inconclusive"] = "stdoutproc child for call %d ended with status %s after %d acknowledgements: %s" % (
+                        k, p.returncode, ack, p.stderr.decode("utf-8", "replace")[-300:])
+                    continue
+                problems = []
+                nlines, open_nested = post_mortem(raw, ack, ref, problems)
+                res["evals"] += 1
+                c["redirected_stdout_selfkills"] = c.get("redirected_stdout_selfkills", 0) + 1
+                res["sets"].setdefault("redirected_stdout_variants", []).append("%s%s" % (reconf, ":-u" if dash_u else ""))
+                if open_nested:
+                    res["nontrivial"].append(h(["stdoutproc", reconf, dash_u, how, k]))
+                if problems:
+                    res["violations"].append({"msg": "%s; the process killed itself (SIGKILL) right after its logging call number %d had returned: %s" % (what, k, problems[0]),
+                                              "mech": None, "detail": {"part": "stdoutproc", "reconfigure": reconf, "dash_u": dash_u, "how": how, "call": k,
+                                                                       "complete_lines": nlines, "problems": problems[:6]}})
+                    if len(res["violations"]) > 3:
+                        return
+        except subprocess.TimeoutExpired:
+            res["inconclusive"] = "stdoutproc child did not finish"
+    finally:
+        import shutil
+        shutil.rmtree(d, ignore_errors=True)
+
+
 def run_case(spec):
     res = {"evals": 0, "nontrivial": [], "counters": {}, "violations": [], "sets": {"phases_hit": []}}
     rng = random.Random("%s:C11:%s:%d" % (spec["seed"], spec["part"], spec["i"]))
     if spec["part"] == "exitlog":
         part_exitlog(spec, res)
         return res
+    if spec["part"] == "stdoutproc":
+        part_stdoutproc(spec, res)
+        return res
     tmpdir = tempfile.mkdtemp(prefix="vf-c11-")
     c = res["counters"]
     try:
-        if spec["part"] == "enum":
+        if spec["part"] == "filekinds":
+            part_filekinds(spec, res, rng, tmpdir)
+        elif spec["part"] == "enum":
             audit = spec["i"] % 4 == 1
             late = spec["i"] % 4 == 2  # finish() inside the action's own context(), then a message logged there after its end
             prog = make_program(rng, late=late)
@@ -378,40 +778,8 @@ def run_case(spec):
                 res["violations"].append({"msg": "reference run failed: %s" % err, "mech": None, "detail": {"program": prog}})
                 return res
             shape = gen.prog_shape(prog)
-            for k in range(len(ref)):
-                for ph in crash.PHASES:
-                    path = os.path.join(tmpdir, "c.log")
-                    ack, nacks, status = spawn(prog, path, mode, (k, ph), audit=audit, late=late)
-                    with open(path, "rb") as f:
-                        raw = f.read()
-                    os.unlink(path)
-                    problems = []
-                    if not (os.WIFSIGNALED(status) and os.WTERMSIG(status) == signal.SIGKILL):
-                        res["inconclusive"] = "crash child for point (%d, %s) ended with status %d instead of SIGKILL" % (k, ph, status)
-                        continue
-                    nlines, open_nested = post_mortem(raw, ack, ref, problems)
-                    want_lines = k + 1 if ph == "after_flush" else k
-                    if mode == "ab0" and ph == "after_write":
-                        want_lines = k + 1
-                    if ph == "after_write" and mode != "ab0" and nlines == k + 1:
-                        # a line longer than the file object's buffer is handed to the OS by write() itself
-                        c["long_lines_written_through_before_flush"] = c.get("long_lines_written_through_before_flush", 0) + 1
-                        want_lines = k + 1
-                    if nlines != want_lines and not problems:
-                        problems.append("crash at (%d, %s) in mode %s left %d complete lines, expected %d" % (k, ph, mode, nlines, want_lines))
-                    if ph == "torn_write" and not raw.split(b"\n")[-1]:
-                        problems.append("torn write left no trailing fragment (injector not effective)")
-                    res["evals"] += 1
-                    c["crashes_injected"] = c.get("crashes_injected", 0) + 1
-                    c["acknowledgements_read"] = c.get("acknowledgements_read", 0) + nacks
-                    res["sets"]["phases_hit"].append(ph + ":" + mode)
-                    if open_nested:
-                        res["nontrivial"].append(h([shape, mode, k, ph]))
-                    if problems:
-                        res["violations"].append({"msg": problems[0], "mech": None,
-                                                  "detail": {"crash_point": [k, ph], "mode": mode, "ack": ack, "problems": problems[:6], "program": prog}})
-                        if len(res["violations"]) > 5:
-                            return res
+            if enumerate_crashes(res, prog, mode, ref, shape, tmpdir, audit=audit, late=late):
+                return res
             c["programs_enumerated"] = 1
             if spec["i"] % 10 == 0:
                 res["sample"] = {"program": prog, "mode": mode, "writes": len(ref), "crash_points": len(ref) * len(crash.PHASES)}
@@ -471,4 +839,17 @@ def finalize(agg, tier):
         return "too few logging calls were acknowledged during interpreter exit"
     if len(agg["sets"].get("phases_hit", {})) < 12:
         return "not every (phase, mode) combination was hit"
+    if ENABLE_FILEKINDS:
+        if len(agg["sets"].get("filekind_phases_hit", {})) < len(crash.PHASES) * len(KINDS):
+            return "part filekinds: not every (phase, kind of file object) combination was hit behind the pass-through object"
+        if c.get("filekind_crashes_injected", 0) < 500:
+            return "part filekinds: fewer than 500 injected crashes"
+        if len(agg["sets"].get("real_file_kinds", {})) < 2 * len(KINDS):
+            return "part filekinds: not every kind of real file object was handed over unwrapped through both to_file and FileDestination"
+        if c.get("real_file_selfkills_with_lines_owed", 0) < 200:
+            return "part filekinds: fewer than 200 children killed themselves after a logging call that had returned"
+        if c.get("real_file_kills_on_acknowledgement", 0) < 200:
+            return "part filekinds: fewer than 200 children were killed at the arrival of an acknowledgement"
+        if c.get("redirected_stdout_selfkills", 0) < 40 or len(agg["sets"].get("redirected_stdout_variants", {})) < 7:
+            return "part stdoutproc: too few self-killing interpreters with redirected standard output"
     return None
